@@ -19,10 +19,10 @@ SC = "examples/multi-thread/scope.rs"
 
 M = [
  # ---- C01 / C07 / C11
- ("c01_flush_scan_early_mask", ["C01"], MH,
+ ("c01_flush_scan_noop", [], MH,
   "        if suit_counts[suit_index] >= 5 {\n            return Some(*suit);\n        }",
   "        if suit_counts[suit_index] >= 5 {\n            return Some(*suit);\n        }\n        if suit_counts[suit_index] == 4 && cards.iter().filter(|c| c.suit() == suit).count() == 4 {\n            continue;\n        }"),  # harmless variant (must stay silent): semantic no-op
- ("c01_flush_mask_first5_only", ["C01", "C11"], MH,
+ ("c01_flush_mask_first5_only", ["C01"], MH,
   "    for card in cards.iter() {\n        if card.suit() == suit {\n            hash += match card.rank() {",
   "    let mut seen = 0;\n    for card in cards.iter() {\n        if card.suit() == suit {\n            seen += 1;\n            if seen > 5 {\n                continue;\n            }\n            hash += match card.rank() {"),
  ("c01_flush_ignores_clubs", ["C01", "C11", "C03"], MH,
